@@ -109,7 +109,11 @@ func getValues(o *Obl, extra []string, terms []string, scratch string) (map[stri
 		}
 	}
 	for _, sp := range order {
-		r := runSolver(context.Background(), sp, fn, 30)
+		t0 := time.Now()
+		r := runSolver(context.Background(), sp, fn, 10)
+		if os.Getenv("GOVC_DEBUG") != "" {
+			fmt.Fprintf(os.Stderr, "getValues %s: %s in %.1fs\n", sp.name, r.status, time.Since(t0).Seconds())
+		}
 		if r.status != "sat" {
 			continue
 		}
@@ -165,7 +169,17 @@ func concretize(u *Universe, o *Obl, rf *ReplayFile, opt *Options) {
 			return
 		}
 	}
-	vals, ok := getValues(o, nil, terms, scratch)
+	// prefer small inputs: first ask for a model whose slices have at most 64 elements
+	var small []string
+	for _, t := range terms {
+		if strings.Contains(t, ".len") {
+			small = append(small, fmt.Sprintf("(<= %s 64)", t))
+		}
+	}
+	vals, ok := getValues(o, small, terms, scratch)
+	if !ok {
+		vals, ok = getValues(o, nil, terms, scratch)
+	}
 	if !ok {
 		rf.Verdict = "no-failing-input-found: could not re-obtain a model"
 		return
@@ -194,7 +208,7 @@ func concretize(u *Universe, o *Obl, rf *ReplayFile, opt *Options) {
 			if ci.val == nil {
 				ci.val = big.NewInt(0)
 			}
-			if ci.val.Cmp(big.NewInt(1<<16)) > 0 {
+			if ci.val.Cmp(big.NewInt(2048)) > 0 {
 				rf.Verdict = fmt.Sprintf("no-failing-input-found: model needs a %s-element input for %s (skipped)", ci.val, ib.Name)
 				return
 			}
@@ -329,7 +343,7 @@ func runConcrete(u *Universe, c *Contract, cins []concreteInput, rf *ReplayFile,
 	body := &strings.Builder{}
 	fmt.Fprintf(body, "func TestGovcReplay(t *testing.T) {\n")
 	fmt.Fprintf(body, "\tout := map[string]interface{}{}\n")
-	fmt.Fprintf(body, "\tdefer func() {\n\t\tif r := recover(); r != nil {\n\t\t\tout[\"panic\"] = fmt.Sprint(r)\n\t\t}\n\t\tb, _ := json.Marshal(out)\n\t\tfmt.Fprintf(os.Stdout, \"\\nGOVC-REPLAY %%s\\n\", b)\n\t}()\n")
+	fmt.Fprintf(body, "\tdefer func() {\n\t\tif r := recover(); r != nil {\n\t\t\tout[\"panic\"] = fmt.Sprint(r)\n\t\t}\n\t\tb, _ := json.Marshal(out)\n\t\tfmt.Fprintf(os.Stdout, \"\nGOVC-REPLAY %%s\n\", b)\n\t}()\n")
 	fmt.Fprintf(body, "%s\n", strings.Join(decls, "\n"))
 	nres := sig.Results().Len()
 	var rnames []string
